@@ -1,6 +1,7 @@
 package main
 
 import (
+	"sort"
 	"fmt"
 	"go/types"
 	"math"
@@ -397,6 +398,10 @@ type Env struct {
 	Pure    func(name string, args []Term) (Term, bool) // application of a pure repository function
 	Reveal  map[string]bool
 	Ghost   func(name string, args []Term) (Term, bool) // ghost relation in the state this environment describes
+	// Candidates lists in-scope named values that no clause of the contract mentions: when a clause names a local
+	// variable that does not exist (renamed in the code), each candidate is tried and a unique well-typed one is used.
+	Candidates func() map[string]Term
+	OnRebind   func(ident, local string)
 }
 
 type FuncSym struct {
@@ -415,7 +420,7 @@ type SpecDef struct {
 }
 
 func (env *Env) child() *Env {
-	n := &Env{Vars: map[string]Term{}, Lookup: env.Lookup, Old: env.Old, FieldOf: env.FieldOf, Defs: env.Defs, Sorts: env.Sorts, Funcs: env.Funcs, Pure: env.Pure, Reveal: env.Reveal, Ghost: env.Ghost}
+	n := &Env{Vars: map[string]Term{}, Lookup: env.Lookup, Old: env.Old, FieldOf: env.FieldOf, Defs: env.Defs, Sorts: env.Sorts, Funcs: env.Funcs, Pure: env.Pure, Reveal: env.Reveal, Ghost: env.Ghost, Candidates: env.Candidates, OnRebind: env.OnRebind}
 	for k, v := range env.Vars {
 		n.Vars[k] = v
 	}
@@ -470,6 +475,69 @@ func specFail(format string, args ...interface{}) {
 }
 
 func ToSMT(e Expr, env *Env) (t Term, err error) {
+	return toSMTRebinding(e, env, 0)
+}
+
+func toSMTRebinding(e Expr, env *Env, depth int) (t Term, err error) {
+	t, err = toSMTOnce(e, env)
+	if err == nil || env == nil || env.Candidates == nil || depth > 3 {
+		return t, err
+	}
+	const marker = "unknown identifier "
+	msg := err.Error()
+	i := strings.Index(msg, marker)
+	if i < 0 {
+		return t, err
+	}
+	ident := msg[i+len(marker):]
+	if j := strings.IndexAny(ident, " ("); j >= 0 {
+		ident = ident[:j]
+	}
+	var okNames []string
+	var okTerm Term
+	cands := env.Candidates()
+	names := make([]string, 0, len(cands))
+	for n := range cands {
+		names = append(names, n)
+	}
+	sort.Strings(names)
+	for _, n := range names {
+		c := env.child()
+		c.Candidates = func() map[string]Term {
+			m := map[string]Term{}
+			for k, v := range cands {
+				if k != n {
+					m[k] = v
+				}
+			}
+			return m
+		}
+		c.OnRebind = env.OnRebind
+		c.Vars[ident] = cands[n]
+		if c.Old != nil {
+			o := *c.Old
+			o.Vars = map[string]Term{}
+			for k, v := range c.Old.Vars {
+				o.Vars[k] = v
+			}
+			o.Vars[ident] = cands[n]
+			c.Old = &o
+		}
+		if t2, err2 := toSMTRebinding(e, c, depth+1); err2 == nil {
+			okNames = append(okNames, n)
+			okTerm = t2
+		}
+	}
+	if len(okNames) == 1 {
+		if env.OnRebind != nil {
+			env.OnRebind(ident, okNames[0])
+		}
+		return okTerm, nil
+	}
+	return t, err
+}
+
+func toSMTOnce(e Expr, env *Env) (t Term, err error) {
 	defer func() {
 		if r := recover(); r != nil {
 			if se, ok := r.(specErr); ok {
